@@ -167,10 +167,10 @@ func (r *recClient) Versions(ctx context.Context, pk resolve.PackageKey) ([]reso
 		r.lists = append(r.lists, append([]resolve.Version(nil), vs...))
 	}
 	r.noteList("L"+pkSx(pk).String(), ans, pkSx(pk))
-	// The resolver sorts and reverses the slice it is handed, which for a
-	// LocalClient is the client's own slice: hand it through unchanged so the
-	// recorded run has the real aliasing; the table keeps the first answer and
-	// later answers may differ from it in order only.
+	// Hand the client's own slice through unchanged, so that the recorded run
+	// has the real aliasing (a resolver that reorders it in place would make
+	// later answers differ from the first one in order; the table keeps the
+	// first answer and python compares the recorded run with the table run).
 	return vs, err
 }
 
